@@ -165,11 +165,24 @@ pub struct RecStream {
     pub before_call: Option<Arc<dyn Fn() + Send + Sync>>,
 }
 
-fn to_result(r: u8) -> Result<(), IoStreamError> {
+/// The kinds of I/O error a stream can answer with: the queue must treat them all alike (an error for that entry
+/// only — in particular no retry for the "transient" ones, `EntryIoStream::next` is not idempotent).
+const IO_KINDS: [std::io::ErrorKind; 8] = [
+    std::io::ErrorKind::Other,
+    std::io::ErrorKind::Interrupted,
+    std::io::ErrorKind::WouldBlock,
+    std::io::ErrorKind::TimedOut,
+    std::io::ErrorKind::BrokenPipe,
+    std::io::ErrorKind::WriteZero,
+    std::io::ErrorKind::UnexpectedEof,
+    std::io::ErrorKind::OutOfMemory,
+];
+
+fn to_result(r: u8, salt: u64) -> Result<(), IoStreamError> {
     match r {
         R_OK => Ok(()),
         R_VAL => Err(IoStreamError::Validation(ValidationError::invalid("scripted validation error"))),
-        _ => Err(IoStreamError::Io(std::io::Error::other("scripted io error"))),
+        _ => Err(IoStreamError::Io(std::io::Error::new(IO_KINDS[(salt % 8) as usize], "scripted io error"))),
     }
 }
 
@@ -183,6 +196,7 @@ impl EntryIoStream for RecStream {
         }
         let mut p = Probe::default();
         entry.write(&mut p);
+        let salt = p.t.unwrap_or(0).wrapping_mul(5).wrapping_add(p.n.unwrap_or(3));
         let (ev, r) = match (p.t, p.n, p.report, p.other) {
             (Some(t), Some(n), false, false) => {
                 let r = *self.script.results.get(&(t, n)).unwrap_or(&R_OK);
@@ -192,7 +206,7 @@ impl EntryIoStream for RecStream {
             _ => (Ev::Alien, R_OK),
         };
         self.log.lock().unwrap().push(ev);
-        to_result(r)
+        to_result(r, salt)
     }
 
     fn flush(&mut self) -> std::io::Result<()> {
